@@ -757,8 +757,17 @@ class SourceFile:
                     q += 1
                 e = self.skip_balanced(q)
                 names = [h.s for h in hdr]
-                if "for" in names or "<" in names:
-                    pass  # trait impls and generic impls hold no kernels
+                if len(hdr) == 3 and hdr[1].s == "for" and all(h.k == "id" for h in hdr):
+                    # `impl Trait for Type { .. }`: its fns are listed under the impl name "Trait for Type"
+                    keep = True
+                    try:
+                        keep = cfg_keep(at, t.line)
+                    except U:
+                        keep = False
+                    if keep:
+                        self.scan(q + 1, e - 1, f"{hdr[0].s} for {hdr[2].s}")
+                elif "for" in names or "<" in names:
+                    pass  # other trait impls and generic impls hold no kernels
                 else:
                     keep = True
                     try:
@@ -894,6 +903,7 @@ class SourceFile:
             raise U(it["line0"], "generic function")
         ps.expect("(")
         params = []
+        into_params = set()
         while not ps.at(")"):
             ln = ps.peek().line
             ps.attrs()
@@ -910,7 +920,18 @@ class SourceFile:
                     raise U(ln, "mutable parameter")
                 pname = ps.ident()
                 ps.expect(":")
-                params.append((pname, ps.ty()))
+                if ps.at("impl"):
+                    # `x: impl Into<T>`: the callee converts with the lossless `.into()`; the parameter has
+                    # type T and every call site converts its argument by a `conv into` row of SEM
+                    ps.p += 1
+                    if not (ps.eat("Into") and ps.eat("<")):
+                        raise U(ln, "`impl Trait` parameter other than `impl Into<T>`")
+                    pty = ps.ty()
+                    ps.expect(">")
+                    params.append((pname, pty))
+                    into_params.add(pname)
+                else:
+                    params.append((pname, ps.ty()))
             if not ps.eat(","):
                 break
         ps.expect(")")
@@ -920,7 +941,7 @@ class SourceFile:
         if ps.at("where"):
             raise U(it["line0"], "where clause")
         body = ps.block()
-        return dict(params=params, ret=ret, body=body, item=it)
+        return dict(params=params, ret=ret, body=body, item=it, into_params=into_params)
 
 
 # ======================================================================================= types
@@ -1047,6 +1068,8 @@ SEM = [
     R("bin", "*", ("Decimal256", "Decimal256"), "Decimal256", "dec256Mul {0} {1}", "bind", "decimal256.rs impl Mul: full_mul / 10^18 floor, panic \"attempt to multiply with overflow\""),
     R("m", "is_zero", ("Decimal256",), "bool", "decide ({0} = 0)", "pure", "decimal256.rs is_zero"),
     R("m", "atomics", ("Decimal256",), "Uint256", "{0}", "pure", "decimal256.rs atomics"),
+    R("f", "Decimal256::new", ("Uint256",), "Decimal256", "{0}", "pure", "decimal256.rs `pub const fn new(value: Uint256) -> Self { Self(value) }`: the atomics"),
+    R("m", "decimal_places", ("Decimal256",), "u32", "18", "pure", "decimal256.rs `decimal_places(&self) -> u32 { Self::DECIMAL_PLACES }`, DECIMAL_PLACES = 18"),
     # ---- machine integers (overflow checks ON in every profile of the workspace) ---------------------------
     R("bin", "+", ("u64", "u64"), "u64", "padd U64MAX {0} {1}", "bind", "core: u64 + with overflow-checks: panic"),
     R("bin", "-", ("u64", "u64"), "u64", "psub {0} {1}", "bind", "core: u64 - with overflow-checks: panic"),
@@ -1123,6 +1146,16 @@ STRUCTURAL = [
     ("integer literal", "checked against the range of its (inferred) type"),
     ("match on an enum / Option, if let Some(x) = e", "Lean `match`; every arm is translated unless the kernel is specialised to one variant"),
     ("for _ in 0..N { body }", "fuel-style structural recursion over the mutable locals the body assigns; `break` ends it"),
+    ("for _ in 0..N { body with `return x` exits } rest-of-function",
+     "an auxiliary fuel-recursive definition whose result is the FUNCTION's result: `return x` = that result, end of the body = the recursive call, the code after the loop = the case of no rounds left"),
+    ("[x1, .., xn].into_iter().try_fold(init, |acc, x| { body })?",
+     "literal array only: the closure body unrolled over the elements in order, one nested `do` per element, threading acc; `?` inside the closure and an `Err` result both end the function with `Res.err` (core::iter::Iterator::try_fold stops at the first Err; the trailing `?` returns it)"),
+    ("x: impl Into<T> (parameter of a kernel)", "the parameter has type T; each call site converts its argument by a `conv into` row"),
+    ("recv.m(..) / T::f(..) with m, f in `impl Trait for T` (T a cosmwasm type)",
+     "call of the kernel translated from that impl (KERNELS rows with impl = \"Trait for T\"); only when SEM has no row of that name on T (an inherent method would win in Rust too) — cosmwasm-std 1.5.4 decimal256.rs defines no inherent decimal_with_precision / checked_multiply_ratio / to_uint256_with_precision; the trait is assumed in scope (`use crate::math::Decimal256Helper`)"),
+    ("if c { ..; return v; } rest   (v not Err/None, in the function's own statement sequence)", "`if c then v else rest`"),
+    ("specialize = {param: Enum::Variant} with a struct variant",
+     "the variant's fields replace the parameter (under the field names of the enum definition); the arm's bindings are `let`s of those"),
 ]
 
 LEAN_RESERVED = set("""at from end fun open in do then else if let have show by match with def Type Prop Sort where deriving
@@ -1389,24 +1422,49 @@ class Tr:
         cfg_keep(fn["item"]["attrs"], fn["item"]["line0"])
         self.item = fn["item"]
         self.self_ty = None
-        if k.get("impl"):
+        if k.get("impl") and " for " in k["impl"]:
+            # `impl Trait for T` with T a primitive type of the translator (the extension traits of math.rs)
+            self.self_ty = resolve_type(self.ctx, N("tpath", self.item["line0"], segs=[k["impl"].split(" for ")[1]], args=[]),
+                                        self.names, None)
+        elif k.get("impl"):
             if k["impl"] not in self.names:
                 raise U(self.item["line0"], f"impl type `{k['impl']}` is not in the kernel's type map")
             key = self.names[k["impl"]]
             self.self_ty = (self.ctx.typedef(key)[0], key)
         env, params = {}, []
         spec = k.get("specialize", {})
+        self.into_params = set()
         for pname, pty in fn["params"]:
             if pname in spec:
-                env[pname] = ("special", spec[pname])
-                self.notes.append(f"specialised to `{pname} = {spec[pname]}` (the parameter is dropped)")
+                # the fields of the selected variant become parameters (under the FIELD names of the enum
+                # definition; the arm's own binding names are local `let`s)
+                t = resolve_type(self.ctx, pty, self.names, self.self_ty)
+                if not (isinstance(t, tuple) and t[0] == "enum"):
+                    raise U(self.item["line0"], f"specialised parameter `{pname}` is not an enum")
+                want = spec[pname].split("::")
+                if len(want) != 2 or self.names.get(want[0]) != t[1]:
+                    raise U(self.item["line0"], f"`{spec[pname]}` does not name a variant of the type of `{pname}`")
+                vf = dict(self.ctx.typedef(t[1])[1]).get(want[1], "missing")
+                if vf == "missing":
+                    raise U(self.item["line0"], f"unknown variant `{spec[pname]}`")
+                fields = list(vf or [])
+                env[pname] = ("special", spec[pname], fields)
+                for fname, fty in fields:
+                    params.append((lean_ident(fname), fty))
+                self.notes.append(f"specialised to `{pname} = {spec[pname]}` (the parameter is " +
+                                  ("replaced by the variant's fields: " + ", ".join(f for f, _ in fields) if fields else "dropped") + ")")
                 continue
             t = resolve_type(self.ctx, pty, self.names, self.self_ty)
             env[pname] = t
             params.append((lean_ident(pname), t))
+            if pname in fn["into_params"]:
+                self.into_params.add(lean_ident(pname))
         for s in spec:
             if s not in env:
                 raise U(self.item["line0"], f"specialised parameter `{s}` does not exist")
+        if len({n for n, _ in params}) != len(params):
+            raise U(self.item["line0"], "two parameters of the generated definition have the same name")
+        self.spec_field_names = {lean_ident(f) for v in env.values() if isinstance(v, tuple) and v[0] == "special" for f, _ in v[2]}
         self.ret = "unit" if fn["ret"] is None else resolve_type(self.ctx, fn["ret"], self.names, self.self_ty, ret=True)
         self.ret_is_option = fn["ret"] is not None and fn["ret"]["k"] == "tpath" and fn["ret"]["segs"][-1] == "Option"
         lines, _ = self.captured(fn["body"], "fn", env, self.ret)
@@ -1497,6 +1555,21 @@ class Tr:
             return ["Res.err"], NEVER
         raise U(e["line"], "early `return` of a non-error value from inside a nested block")
 
+    def ends_in_value_return(self, blk):
+        """the block's last statement is `return v` with v not an `Err(..)` / `None` (those stay statements:
+        `return Err` = `Res.err` propagating through bind)"""
+        if blk["k"] != "block" or blk["tail"] is not None or not blk["stmts"]:
+            return False
+        last = blk["stmts"][-1]
+        if not (last["k"] == "sexpr" and last["e"]["k"] == "return" and last["e"]["e"] is not None):
+            return False
+        r = last["e"]["e"]
+        if r["k"] == "call" and r["f"]["k"] == "path" and r["f"]["segs"] == ["Err"]:
+            return False
+        if r["k"] == "path" and r["segs"] == ["None"]:
+            return False
+        return True
+
     def block_term(self, b, mode, env, expected):
         stmts = b["stmts"]
         for i, st in enumerate(stmts):
@@ -1504,6 +1577,20 @@ class Tr:
                 if i != len(stmts) - 1 or b["tail"] is not None:
                     raise U(st["line"], "statements after `return`")
                 return self.return_term(st["e"], mode, env)
+            if mode == "fn" and st["k"] == "sexpr" and st["e"]["k"] == "if" and st["e"]["els"] is None \
+                    and self.ends_in_value_return(st["e"]["then"]):
+                # `if c { ..; return v; } rest` in the function's own statement sequence = `if c then v else rest`
+                ie = st["e"]
+                c = self.cond(ie["cond"], env)
+                tl, tt = self.captured(ie["then"], "fn", env, self.ret)
+                rest = N("block", st["line"], stmts=stmts[i + 1:], tail=b["tail"])
+                el, et = self.captured(rest, "fn", env, self.ret)
+                return wrap("(", [f"if {c} then do"] + indent(tl) + ["else do"] + indent(el), ")"), self.join(tt, et, st["line"])
+            if st["k"] == "sexpr" and st["e"]["k"] == "for" and self.has_return(st["e"]["body"]):
+                if mode != "fn":
+                    raise U(st["line"], "a loop with `return` exits outside the function's own statement sequence")
+                rest = N("block", st["line"], stmts=stmts[i + 1:], tail=b["tail"])
+                return self.return_loop(st["e"], env, rest)
             self.stmt(st, env)
         if b["tail"] is None:
             if mode == "unit":
@@ -1524,14 +1611,41 @@ class Tr:
             for pats, body, al in arms:
                 for p in pats:
                     if p["k"] in ("ppath", "pstruct") and "::".join(p["segs"]) == want:
-                        if p["k"] == "pstruct" and (p["fields"]):
-                            raise U(al, "specialised arm binds fields")
-                        chosen = body
+                        if chosen is not None:
+                            raise U(al, f"two arms for `{want}`")
+                        if len(pats) != 1:
+                            raise U(al, "or-pattern")
+                        binds = []
+                        if p["k"] == "pstruct":
+                            vfields = dict(env[scrut["segs"][0]][2])
+                            for fname, sp in p["fields"]:
+                                if fname not in vfields:
+                                    raise U(al, f"unknown field `{fname}` in pattern")
+                                if sp["k"] == "pwild":
+                                    continue
+                                if sp["k"] != "pbind" or sp["mut"]:
+                                    raise U(al, "nested pattern")
+                                binds.append((sp["name"], fname, vfields[fname]))
+                            if not p["rest"] and {f for f, _ in p["fields"]} != set(vfields):
+                                raise U(al, "pattern does not list every field (and has no `..`)")
+                        elif env[scrut["segs"][0]][2]:
+                            raise U(al, "unit pattern on a struct variant")
+                        chosen = (body, binds)
                     else:
                         self.notes.append(f"arm at line {al} not translated (kernel is specialised to `{want}`)")
             if chosen is None:
                 raise U(line, f"no arm for `{want}`")
-            return self.term_of(chosen, mode, env, expected)
+            body, binds = chosen
+            env2 = dict(env)
+            for local, fname, fty in binds:
+                # the variant's field is a parameter of the generated definition; a local of the function that
+                # shadows the field name before the `match` would be captured instead: refuse
+                if fname in env and lean_ident(fname) in self.spec_field_names:
+                    raise U(line, f"a local named `{fname}` shadows the specialised variant's field")
+                if lean_ident(local) != lean_ident(fname):
+                    self.emit(f"let {lean_ident(local)} := {lean_ident(fname)}")
+                env2[local] = fty
+            return self.term_of(body, mode, env2, expected)
         sa, st = self.tr(scrut, env, None)
         out, ty = [f"match {sa} with"], NEVER
         for pats, body, al in arms:
@@ -1703,6 +1817,111 @@ class Tr:
     def has_break(node):
         return any(n.get("k") == "break" for n in Tr.walk(node))
 
+    @staticmethod
+    def has_return(node):
+        return any(n.get("k") == "return" for n in Tr.walk(node))
+
+    @staticmethod
+    def has_exit(node):
+        return any(n.get("k") in ("break", "return") for n in Tr.walk(node))
+
+    def loop_fuel(self, e, env):
+        """checks the loop header `for _ in 0..N`; returns N as a Lean term"""
+        ln = e["line"]
+        if e["k"] != "for":
+            raise U(ln, f"`{e['k']}` loop")
+        if e["pat"]["k"] != "pwild":
+            raise U(ln, "loop with an index variable")
+        it = e["it"]
+        while it["k"] == "paren":
+            it = it["e"]
+        if it["k"] != "range" or it["incl"] or it["lo"] is None or it["hi"] is None:
+            raise U(ln, "loop iterator is not a half-open range `0..N`")
+        if not (it["lo"]["k"] == "int" and it["lo"]["v"] == 0):
+            raise U(ln, "loop range does not start at the literal 0")
+        if it["hi"]["k"] == "int":
+            return str(it["hi"]["v"])
+        fuel, ft = self.tr(it["hi"], env, None)
+        if ft not in INTS or not re.fullmatch(r"[0-9]+", fuel):
+            raise U(ln, "loop bound is not an integer constant")
+        return fuel
+
+    def loop_vars(self, body, rest, env, ln):
+        """(state, scratch, free) of a loop: the `let mut` locals of the enclosing region the body assigns, the
+        uninitialised ones it assigns, and the other names of the environment that body / rest mention"""
+        assigned, declared, used = [], set(), []
+        for n in self.walk(body):
+            if n.get("k") == "assign":
+                if n["lhs"]["k"] != "path" or len(n["lhs"]["segs"]) != 1:
+                    raise U(n["line"], "assignment to something that is not a local variable")
+                if n["lhs"]["segs"][0] not in assigned:
+                    assigned.append(n["lhs"]["segs"][0])
+            elif n.get("k") == "let" and n["pat"]["k"] == "pbind":
+                declared.add(n["pat"]["name"])
+        for n in self.walk([body, rest]):
+            if n.get("k") == "path" and len(n["segs"]) == 1 and n["segs"][0] not in used:
+                used.append(n["segs"][0])
+        state, scratch = [], []
+        for name in assigned:
+            if name in declared:
+                continue
+            if name in self.uninit:
+                scratch.append(name)
+            elif name in env and name in self.mutable and name in self.assignable:
+                state.append(name)
+            else:
+                raise U(ln, f"loop body assigns `{name}`, which is not an initialised `let mut` local of the enclosing block")
+        if not state:
+            raise U(ln, "loop without state")
+        free = [n for n in env if n in used and n not in state
+                and not (isinstance(env[n], tuple) and env[n][0] == "special")]
+        return state, scratch, free
+
+    def return_loop(self, e, env, rest):
+        """`for _ in 0..N { body }` whose exits are `return …` from the FUNCTION, followed by the statements
+        `rest` up to the end of the function: an auxiliary definition by structural recursion on the rounds left
+        whose result is the function's result — a `return x` in the body is that result, falling off the end of
+        the body is the recursive call, and `rest` (the code after the loop) is the case of no rounds left."""
+        ln = e["line"]
+        fuel = self.loop_fuel(e, env)
+        body = e["body"]
+        if any(n.get("k") in ("break", "for", "while", "loop") for n in self.walk(body)):
+            raise U(ln, "`break` or a nested loop inside a loop with `return` exits")
+        if not (isinstance(self.ret, tuple) and self.ret[0] == "res"):
+            raise U(ln, "a loop with `return` exits in a function without Result/Option result")
+        state, scratch, free = self.loop_vars(body, rest, env, ln)
+        if scratch:
+            raise U(ln, "a loop with `return` exits assigns an uninitialised local")
+        self.nloops += 1
+        lname = f"{self.kern['lean']}_loop{self.nloops}"
+        s_lean = [lean_ident(n) for n in state]
+        f_lean = [lean_ident(n) for n in free]
+        s_types = [lean_type(self.ctx, env[n]) for n in state]
+        cont = [" ".join([lname] + f_lean + ["fuel'"] + s_lean)]
+        saved_out, self.out = self.out, []
+        saved_assignable, self.assignable = self.assignable, set(state)
+        saved_ret, self.loop_ret = getattr(self, "loop_ret", False), True
+        try:
+            tail_lines = self.loop_block(body, dict(env), cont, None)
+            body_lines = self.out + tail_lines
+            self.out, self.assignable = [], saved_assignable
+            self.loop_ret = False
+            rl, _ = self.term_of(rest, "fn", dict(env), self.ret)
+            zero_lines = self.out + rl
+        finally:
+            self.out, self.assignable, self.loop_ret = saved_out, saved_assignable, saved_ret
+        sig = " ".join(f"({n} : {lean_type(self.ctx, env[r])})" for n, r in zip(f_lean, free))
+        rty = lean_type(self.ctx, self.ret[1])
+        head = f"def {lname} {sig} : Nat → " + " → ".join(atom(t) for t in s_types) + f" → Res {atom(rty)}"
+        d = [f"/-- the `for _ in 0..{fuel}` loop at line {ln} of `{self.kern['fn']}` (exits: `return` from the function): state",
+             f"    ({', '.join(state)}); the first argument after the parameters is the number of iterations left; the result is",
+             f"    the function's result, the case of no iterations left is the code after the loop -/",
+             head.replace("  :", " :"),
+             "  | 0, " + ", ".join(s_lean) + " => do"] + ["    " + l for l in zero_lines] + [
+             "  | fuel' + 1, " + ", ".join(s_lean) + " => do"] + ["    " + l for l in body_lines]
+        self.aux.append(d)
+        return [" ".join([lname] + f_lean + [fuel] + s_lean)], self.ret
+
     def loop_stmt(self, e, env):
         """`for _ in 0..N { body }` over mutable locals -> an auxiliary definition by structural recursion on the
         iteration count (fuel).  State = the already initialised `let mut` locals of the enclosing region that the
@@ -1792,13 +2011,19 @@ class Tr:
         if not items:
             return cont
         for st in items[:-1]:
-            if self.has_break(st):
-                raise U(st["line"], "`break` before the last statement of a block")
+            if self.has_exit(st):
+                raise U(st["line"], "`break` / `return` before the last statement of a block")
             self.stmt(st, env)
         last = items[-1]
         if last["k"] == "sexpr" and last["e"]["k"] == "break":
+            if brk is None:
+                raise U(last["line"], "`break` in a loop with `return` exits")
             return brk
-        if last["k"] == "sexpr" and self.has_break(last):
+        if last["k"] == "sexpr" and last["e"]["k"] == "return":
+            if not getattr(self, "loop_ret", False):
+                raise U(last["line"], "`return` inside a loop body")
+            return self.return_term(last["e"], "fn", env)[0]
+        if last["k"] == "sexpr" and self.has_exit(last):
             return self.loop_tail(last["e"], env, cont, brk)
         self.stmt(last, env)
         return cont
@@ -1807,7 +2032,7 @@ class Tr:
         if e["k"] == "block":
             return self.loop_block(e, dict(env), cont, brk)
         if e["k"] != "if":
-            raise U(e["line"], "`break` inside something that is not an `if`")
+            raise U(e["line"], "`break` / `return` inside something that is not an `if`")
         c = self.cond(e["cond"], env)
 
         def branch(b):
@@ -1961,6 +2186,11 @@ class Tr:
                     return self.apply_row(row, [a]), target
             raise U(ln, f"no semantic-table row for `as` from {show_type(t)} to {show_type(target)}")
         if k == "try":
+            inner = e["e"]
+            while inner["k"] == "paren":
+                inner = inner["e"]
+            if inner["k"] == "mcall" and inner["name"] == "try_fold":
+                return self.tr_try_fold(inner, env, hint)
             want = ("res", expected) if expected is not None else None
             a, t = self.tr(e["e"], env, want)
             if isinstance(t, tuple) and t[0] == "res":
@@ -2054,6 +2284,87 @@ class Tr:
             return v, t
         raise U(ln, f"expression kind `{k}` is not supported here")
 
+    def tr_try_fold(self, e, env, hint):
+        """`[x1, .., xn].into_iter().try_fold(init, |acc, x| body)?` over a LITERAL array: the closure body is
+        unrolled over the elements in order, threading the accumulator.  core::iter::Iterator::try_fold stops at
+        the first `Err` the closure returns and returns it; the `?` that follows returns it from the function;
+        a `?` inside the closure returns `Err` from the closure — all three are `Res.err` reaching the function
+        result through bind.  Each round is its own nested `do` block (the closure's locals do not escape)."""
+        ln = e["line"]
+        if not (isinstance(self.ret, tuple) and self.ret[0] == "res") or self.ret_is_option:
+            raise U(ln, "`try_fold(..)?` in a function that does not return Result")
+        recv = e["recv"]
+        while recv["k"] == "paren":
+            recv = recv["e"]
+        if not (recv["k"] == "mcall" and recv["name"] == "into_iter" and not recv["args"] and recv["turbofish"] is None):
+            raise U(ln, "try_fold on something that is not `[..].into_iter()`")
+        arr = recv["recv"]
+        while arr["k"] == "paren":
+            arr = arr["e"]
+        if arr["k"] != "array" or not arr["elems"]:
+            raise U(ln, "try_fold over something that is not a non-empty array literal")
+        if len(e["args"]) != 2 or e["args"][1]["k"] != "closure":
+            raise U(ln, "try_fold arguments are not (init, closure)")
+        clo = e["args"][1]
+        if len(clo["params"]) != 2 or any(p["k"] != "pbind" or p["mut"] for p in clo["params"]):
+            raise U(ln, "try_fold closure parameters are not two plain names")
+        if clo["body"]["k"] != "block":
+            raise U(ln, "try_fold closure body is not a block")
+        if any(n.get("k") in ("return", "break", "for", "while", "loop", "closure") for n in self.walk(clo["body"])):
+            raise U(ln, "`return`, `break`, a loop or a closure inside the try_fold closure")
+        elems, et = [], None
+        for x in arr["elems"]:
+            a, t = self.tr(x, env, et)
+            if isinstance(t, tuple) and t[0] == "res":
+                raise U(ln, "Result value in an array")
+            if et is not None and t != et:
+                raise U(ln, "array elements of different types")
+            et = t
+            elems.append(a)
+        acc, at = self.tr(e["args"][0], env, None)
+        if isinstance(at, tuple) and at[0] in ("res", "opt"):
+            raise U(ln, "try_fold accumulator is a Result/Option")
+        if e["turbofish"] is not None:
+            # only `::<_, _, Result<_ | B, E>>` (it names what is inferred anyway)
+            tf = e["turbofish"]
+            ok = len(tf) == 3 and all(t["k"] == "tpath" for t in tf) and tf[0]["segs"] == ["_"] and tf[1]["segs"] == ["_"] \
+                and tf[2]["segs"][-1] == "Result" and len(tf[2]["args"]) == 2
+            if ok and tf[2]["args"][0].get("segs") != ["_"]:
+                ok = resolve_type(self.ctx, tf[2]["args"][0], self.names, self.self_ty) == at
+            if not ok:
+                raise U(ln, "turbofish of try_fold is not `::<_, _, Result<_, E>>`")
+        an, xn = clo["params"][0]["name"], clo["params"][1]["name"]
+        if an == xn:
+            raise U(ln, "try_fold closure parameters have the same name")
+        for i, x in enumerate(elems):
+            if re.search(r"(?<![A-Za-z0-9_'])" + re.escape(lean_ident(an)) + r"(?![A-Za-z0-9_'])", x):
+                raise U(ln, "the accumulator parameter's name occurs in an array element")
+            saved, self.out = self.out, []
+            saved_assignable, self.assignable = self.assignable, set()
+            saved_mut = set(self.mutable)
+            try:
+                env2 = dict(env)
+                env2[an], env2[xn] = at, et
+                self.mutable -= {an, xn}
+                if acc != lean_ident(an):
+                    self.emit(f"let {lean_ident(an)} := {acc}")
+                if x != lean_ident(xn):
+                    self.emit(f"let {lean_ident(xn)} := {x}")
+                for st in clo["body"]["stmts"]:
+                    self.stmt(st, env2)
+                if clo["body"]["tail"] is None:
+                    raise U(ln, "try_fold closure has no tail expression")
+                ta, tt = self.tr(clo["body"]["tail"], env2, ("res", at))
+                if not (isinstance(tt, tuple) and tt[0] == "res" and self.compatible(tt, ("res", at))):
+                    raise U(ln, f"try_fold closure yields {show_type(tt)}, expected a Result of {show_type(at)}")
+                lines = self.out + [ta]
+            finally:
+                self.out, self.assignable, self.mutable = saved, saved_assignable, saved_mut
+            v = hint if (hint and i == len(elems) - 1) else self.fresh()
+            self.emit_lines(wrap(f"let {v} ← (", ["do"] + indent(lines), ")"))
+            acc = v
+        return acc, at
+
     def tr_path(self, e, env, expected):
         segs, ln = e["segs"], e["line"]
         if len(segs) == 1:
@@ -2143,8 +2454,11 @@ class Tr:
         want = callee["_params"]
         if len(want) != len(args):
             raise U(ln, f"call of `{callee['lean']}` with {len(args)} arguments, expected {len(want)}")
-        for (a, t), (pn, pt) in zip(args, want):
-            if t != pt:
+        args = list(args)
+        for i, ((a, t), (pn, pt)) in enumerate(zip(args, want)):
+            if t != pt and pn in callee.get("_into", ()):
+                args[i] = (self.conv("into", a, t, pt, ln), pt)   # `impl Into<T>` parameter
+            elif t != pt:
                 raise U(ln, f"argument `{pn}` of `{callee['lean']}` has type {show_type(t)}, expected {show_type(pt)}")
         if callee["lean"] not in self.calls:
             self.calls.append(callee["lean"])
@@ -2163,6 +2477,16 @@ class Tr:
                 if kk.get("impl") is None and kk["file"] == self.kern["file"]:
                     return kk
             elif kk.get("impl") and kk.get("types", {}).get(kk["impl"]) == impl_key:
+                return kk
+        return None
+
+    def find_trait_kernel(self, ty, fn_name):
+        """a kernel `impl Trait for <ty>` (extension trait of the contract on a cosmwasm type).  Looked up only
+        after SEM has no row for that name on that type: an inherent method would win in Rust as well."""
+        if not isinstance(ty, str):
+            return None
+        for kk in self.ctx.kernels:
+            if kk["fn"] == fn_name and kk.get("impl", "") and kk["impl"].endswith(" for " + ty):
                 return kk
         return None
 
@@ -2226,6 +2550,15 @@ class Tr:
                 if kk is not None:
                     kk = self.need_translated(kk, ln)
                     vals = [self.tr(x, env, pt) for x, (_, pt) in zip(args, kk["_params"])]
+                    return self.call_kernel(kk, vals, ln, hint)
+            if segs[0] in NUMERIC and not any(r["kind"] == "f" and r["name"] == name for r in SEM):
+                kk = self.find_trait_kernel(segs[0], segs[1])
+                if kk is not None:
+                    kk = self.need_translated(kk, ln)
+                    if len(args) != len(kk["_params"]):
+                        raise U(ln, "wrong number of arguments")
+                    vals = [self.tr(x, env, pt if pn not in kk.get("_into", ()) else None)
+                            for x, (pn, pt) in zip(args, kk["_params"])]
                     return self.call_kernel(kk, vals, ln, hint)
             raise U(ln, f"no semantic-table row for `{name}` with {len(args)} argument(s)")
         if len(segs) == 1:
@@ -2322,6 +2655,15 @@ class Tr:
             return self.call_kernel(kk, vals, ln, hint)
         cands = [r for r in SEM if r["kind"] == "m" and r["name"] == name and len(r["args"]) == len(args) + 1
                  and type_matches(r["args"][0], rt)]
+        if not cands and not any(r["kind"] == "m" and r["name"] == name and type_matches(r["args"][0], rt) for r in SEM):
+            kk = self.find_trait_kernel(rt, name)
+            if kk is not None:
+                kk = self.need_translated(kk, ln)
+                if not kk["_params"] or kk["_params"][0][0] != "self" or len(args) + 1 != len(kk["_params"]):
+                    raise U(ln, "wrong number of arguments / not a method")
+                vals = [(ra, rt)] + [self.tr(x, env, pt if pn not in kk.get("_into", ()) else None)
+                                     for x, (pn, pt) in zip(args, kk["_params"][1:])]
+                return self.call_kernel(kk, vals, ln, hint)
         if not cands:
             raise U(ln, f"no semantic-table row for method `{name}` on {show_type(rt)} with {len(args)} argument(s)")
         vals = [(ra, rt)]
@@ -2347,6 +2689,7 @@ PAIR_HELPERS = PN + "terraswap_pair/src/helpers.rs"
 TRIO_HELPERS = PN + "stableswap_3pool/src/helpers.rs"
 CURVE_RS = PN + "stableswap_3pool/src/stableswap_math/curve.rs"
 WEIGHT_RS = PN + "incentive/src/weight.rs"
+PAIR_MATH = PN + "terraswap_pair/src/math.rs"
 
 # key -> Rust type, file that defines it, Lean name (in namespace WW.Gen.K), names of the types of its fields
 TYPES = {
@@ -2361,6 +2704,7 @@ TYPES = {
     "StableSwap": dict(rust="StableSwap", file=CURVE_RS, lean="StableSwap"),
     "SwapResult": dict(rust="SwapResult", file=CURVE_RS, lean="SwapResult"),
     "TrioSwapComputation": dict(rust="SwapComputation", file=TRIO_HELPERS, lean="TrioSwapComputation"),
+    "StableSwapDirection": dict(rust="StableSwapDirection", file=PAIR_HELPERS, lean="StableSwapDirection"),
 }
 del TYPES["TrioAsset"]
 
@@ -2426,6 +2770,22 @@ KERNELS = [
          types={"StableSwap": "StableSwap", "SwapResult": "SwapResult", "PoolFee": "TrioPoolFee", "Fee": "Fee",
                 "SwapComputation": "TrioSwapComputation"},
          props=["C04"], model="WW.Trio.computeSwap", theorem="WW.KernelsTrioSwap.gen_trio_compute_swap_eq_model", module="WW.Props.Kernels.TrioSwap"),
+    # ---- the pair's Decimal256 stableswap swap path: math.rs extension trait, d / y Newton solvers, StableSwap arm
+    dict(lean="Decimal256Helper_decimal_with_precision", file=PAIR_MATH, impl="Decimal256Helper for Decimal256", fn="decimal_with_precision",
+         props=["C03"], model="WW.dec256WithPrecision", theorem="WW.KernelsStable2Swap.gen_decimal_with_precision_eq_model", module="WW.Props.Kernels.Stable2Swap"),
+    dict(lean="Decimal256Helper_checked_multiply_ratio", file=PAIR_MATH, impl="Decimal256Helper for Decimal256", fn="checked_multiply_ratio",
+         props=["C03"], model="WW.mulRatioC U256MAX", theorem="WW.KernelsStable2Swap.gen_checked_multiply_ratio_eq_model", module="WW.Props.Kernels.Stable2Swap"),
+    dict(lean="Decimal256Helper_to_uint256_with_precision", file=PAIR_MATH, impl="Decimal256Helper for Decimal256", fn="to_uint256_with_precision",
+         props=["C03"], model="WW.dec256ToUintPrecision", theorem="WW.KernelsStable2Swap.gen_to_uint256_with_precision_eq_model", module="WW.Props.Kernels.Stable2Swap"),
+    dict(lean="calculate_stableswap_d", file=PAIR_HELPERS, fn="calculate_stableswap_d",
+         props=["C03"], model="WW.ssD", theorem="WW.KernelsStable2Swap.gen_calculate_stableswap_d_eq_model", module="WW.Props.Kernels.Stable2Swap"),
+    dict(lean="calculate_stableswap_y", file=PAIR_HELPERS, fn="calculate_stableswap_y", types={"StableSwapDirection": "StableSwapDirection"},
+         props=["C03"], model="WW.ssY", theorem="WW.KernelsStable2Swap.gen_calculate_stableswap_y_eq_model", module="WW.Props.Kernels.Stable2Swap"),
+    dict(lean="compute_swap_StableSwap", file=PAIR_HELPERS, fn="compute_swap",
+         types={"PoolFee": "PoolFee", "Fee": "Fee", "PairType": "PairType", "SwapComputation": "SwapComputation",
+                "StableSwapDirection": "StableSwapDirection"},
+         specialize={"swap_type": "PairType::StableSwap"},
+         props=["C03"], model="WW.ssSwap", theorem="WW.KernelsStable2Swap.gen_compute_swap_StableSwap_eq_model", module="WW.Props.Kernels.Stable2Swap"),
 ]
 
 
@@ -2472,6 +2832,8 @@ def main():
                                  props=[], theorem=None))
     for k in KERNELS:
         qual = (k["impl"] + "::" if k.get("impl") else "") + k["fn"]
+        if " for " in k.get("impl", ""):
+            qual = "<{1} as {0}>::".format(*k["impl"].split(" for ")) + k["fn"]
         try:
             tr = Tr(ctx, k)
             lines = tr.translate()
@@ -2484,6 +2846,7 @@ def main():
                                  module=k["module"], also=k.get("also", []), props=k["props"], theorem=k["theorem"]))
             continue
         k["_params"] = [(n, t) for n, t in tr.params]
+        k["_into"] = set(tr.into_params)
         k["_ret"] = tr.ret
         it = tr.item
         h = sha(tr.file.text(it["line0"], it["line1"]))
